@@ -55,6 +55,7 @@ type caseSpec struct {
 	Merge       *mergeSpec   `json:"merge,omitempty"`
 	Free        *freeSpec    `json:"free,omitempty"`
 	Ilv         *ilvSpec     `json:"interleaving,omitempty"`
+	FlushStop   *fsSpec      `json:"flushstop,omitempty"`
 	Mconn       *mconnSpec   `json:"mconn,omitempty"`
 }
 
@@ -93,10 +94,20 @@ var confirmed sync.Map
 // reportFindings confirms (5 re-executions on fresh objects, all must show the same signature) and
 // records violations. A finding that does not reproduce is never reported as a violation; it is
 // counted, and if the run ends without any confirmed violation it is a machinery error (exit 3).
+var racePassMode bool
 var irreproducible int64
 var firstIrreproducible atomic.Value
 
 func reportFindings(c caseSpec, fs []finding) {
+	if racePassMode {
+		// free-running under the race detector: the oracles hold for every schedule, nothing to re-execute;
+		// the main run picks these lines up (VERIF_RACE_PASS=failed:1:<output>)
+		for _, f := range fs {
+			fmt.Printf("RACEPASS-FINDING %s: %s\n", f.sig, f.what)
+			r.Violation(f.sig, f.what, c)
+		}
+		return
+	}
 	for _, f := range fs {
 		if _, seen := confirmed.Load(f.sig); seen {
 			r.Violation(f.sig, f.what, c)
@@ -181,6 +192,10 @@ func runCase(c caseSpec) (fs []finding) {
 		fs = append(hf, fs...)
 	case "interleave":
 		fs = replayIlv(*c.Ilv)
+	case "flushstop":
+		fs = replayFlushStop(*c.FlushStop)
+	case "flushstop-free":
+		fs, _ = runFlushStopFree(c.Free.Iter)
 	case "mconn":
 		fs, _ = runMconn(*c.Mconn)
 	default:
@@ -311,17 +326,21 @@ func main() {
 	deadlineAt = time.Now().Add(budget)
 
 	if racePass {
+		racePassMode = true
 		racePassMain()
 		return
 	}
 
-	if os.Getenv("VERIF_C20_ONLY") == "interleave" { // development aid: measure one phase alone (exits through the vacuity guards)
+	if os.Getenv("VERIF_C20_ONLY") == "flushstop" {
+		phaseFlushStop()
+	} else if os.Getenv("VERIF_C20_ONLY") == "interleave" { // development aid: measure one phase alone (exits through the vacuity guards)
 		phaseInterleave()
 	} else {
 		phaseEvil()
 		phaseTransport()
 		phaseMitm()
 		phaseStreams()
+		phaseFlushStop()
 		phaseMconn()
 	}
 
@@ -334,11 +353,13 @@ func main() {
 		"(a2) two writers per side: all merges of their Write calls for all size lists of <=%d calls each (one goroutine). The premise 'a whole Write call is atomic' is EXPLORED: two real writer goroutines on one real SecretConnection, gated before every Write call and inside the pipe at every underlying conn.Write (sealed frame in hand); at every quiescent point (each writer finished, parked at a gate, or blocked inside the code under test, the last read off the goroutine's scheduler state in a stop-the-world stack snapshot) verif/mc/explore chooses whom to release, default = the writer that ran last, switching away from a writer that could continue = 1 preemption; quick: all unordered pairs of size lists of <=2 calls over {1,1024,1025,2048,3000} plus 3-call lists over {1,3000}, at least one multi-frame Write per scenario, all schedules with <=2 preemptions; thorough: lists of <=2 calls with <=3 preemptions in both directions, lists of <=3 calls (<=5 calls in total, 3+3 over {1,3000}) with <=2 preemptions; oracle: every Write returns (len,nil), the reader gets a concatenation of whole intact payloads, each writer's in its own order, all of them, no error, no deadlock. Plus free-running iterations with two real writer goroutines and a reader per side (the -race pass runs that body). "+
 		"(a3) man in the middle on a session of ephemeral-key message + auth frame + 4 data frames between two real SecretConnections, for BOTH lexical orders of the ephemeral keys: one bit flipped at first/middle/last byte of header, body and tag of every frame (and 6 positions of the key message), every unit dropped / cut off / duplicated / swapped with its successor / truncated at {1, half, len-1, tag only} with and without the rest following, every earlier unit of the same session inserted before or put in place of every later one, every unit of an earlier session of the same two identities inserted / substituted, the whole earlier stream, the ephemeral key replaced by 12 low-order points, the victim's own key, all-ff; oracle: error or stall before any altered byte is delivered, intact prefix delivered, anything but a pure cut of the tail detected as an ERROR. "+
 		"(a4) active attacker (independent implementation of the handshake, validated against the real one in both directions): claims a third party's key with own / relayed / 10 malformed signatures, signs another challenge, reflects the victim's message, seals with the wrong direction key, sends low-order keys, and as authenticated peer sends frames with 8 out-of-range length fields. "+
+		"(c0) MConnection.FlushStop against a busy send routine, EXPLORED (real started MConnection; send routine and FlushStop goroutine gated inside conn.Write and at the start of every flush; the throttle-timer event is an operation of the checker; quiescence from goroutine states as in a2): every environment script over {TrySend next message, throttle timer fires} with 1..3 messages and <=2 timer events followed by FlushStop(), messages of {300, maxPayload+1} bytes in every combination on one channel / alternating between two, plus a first message of 66000 bytes (write buffer overflows inside a batch), all schedules with <=2 preemptions (thorough: sizes {1,300,maxPayload+1}, <=5 preemptions); oracle: the wire decodes (reference receiver and real receiving MConnection) to exactly the messages accepted before FlushStop, once each, intact, in per-channel order, no deadlock. The -race pass (checks/c20/RACEPASS) additionally runs FlushStop free against a send routine stalled in a slow write. "+
 		"(b) MultiplexTransport.upgrade: {inbound, dialled id = / != authenticated id} x {NodeInfo id = authenticated / third party / the node's own} x {peer key foreign / the node's own} x {compatible, other network, other block version, no common channel} x {valid, 4 invalid NodeInfos}, accepted iff all consistent, foreign, compatible, valid; plus the reflecting attacker x {inbound, dialled self, dialled other} x {NodeInfo reflected, own, none}. "+
 		"(c) MConnection: real unstarted sender driven op by op, real started receiver on the produced bytes, reference receiver on the same bytes: all message vectors of <=%d messages over 3 channels x 8 sizes {0,1,maxPayload-1,maxPayload,maxPayload+1,3*maxPayload,capacity,capacity+1} x {0,1,all} packets sent between enqueues x 2 flush policies (thorough: {0,1,2,all} x 3 for <=3 messages, {0,all} x 2 for 4 messages); every op sequence of length <=5 (thorough 7, plus the batch step) over {enqueue(3 channels x {1,maxPayload+1,capacity+1}), send one packet, flush} with <=3 enqueues and send-queue capacity 1, read back in chunks as written and 7 bytes at a time; hand-made packet streams: every merge of the packets of three multi-packet messages on three channels, unknown channel ids, a never-ending message, exact capacity +0/+1 byte, ping/pong in between; the repository's default capacity (21 MiB) +0/+1; message vectors through the full stack MConnection -> SecretConnection -> pipe -> SecretConnection -> MConnection. "+
 		"evaluations = sessions / cases executed on the real code. distinct_nontrivial = distinct (phase, input class, key order where relevant, observed outcome [, frame layout + read return sizes for chunkings, scenario + wire order of the frames + payload order for controlled interleavings, size/channel vector + op string for MConnection]) over cases that are non-trivial: the stream spans >=2 frames (chunkings), the manipulation really changed the delivered bytes (man in the middle), the attacker got through the key exchange (attacker), the upgrade ran a handshake (transport), >=1 message was queued or >=1 packet parsed (MConnection).", kw, streamLen, kr, ml, km))
 	r.Assume(
 		"cryptographic hardness (X25519, ChaCha20-Poly1305, ECDSA/secp256k1, HKDF, merlin) is assumed; ephemeral keys and hence ciphertexts are random per run, the outcome classes are not",
+		"FlushStop exploration: what is between two gates runs freely inside the code under test (e.g. the send routine draining a channel queue after a wake-up); Go's select picks at random among ready cases (quit / send after FlushStop closed the quit channel): both paths lead to the same gate sequence and the same wire; a send routine that lingers in its select after FlushStop returned is not judged; messages offered after FlushStop was called are out of scope",
 		"controlled interleavings: a writer counts as blocked inside the code under test when a stop-the-world goroutine snapshot shows it in a waiting state (mutex, rwmutex, cond, wait group, channel) entered directly from a function of the repository while every other writer is parked at a gate of the checker or finished; Go 1.23 stack-dump format; the phase runs with GOMAXPROCS(1)",
 		"a reader that would block for ever (empty inbox, the checker has nothing more to feed) is given the error 'connection stalls'; it stands for the expiry of the peer's deadline, which the checker owns instead of the wall clock; stalling is an accepted outcome only for manipulations of the handshake units and for pure cuts of the tail",
 		"man in the middle: the manipulated direction is held by the checker; it relies on the handshake writing exactly two units per side unconditionally (ephemeral-key message, one auth frame), measured on every clean handshake (clean_handshake_directions_with_2_writes)",
@@ -350,6 +371,19 @@ func main() {
 	r.Exhaustive(true)
 	stopProf()
 	r.Set("distinct_nontrivial", nontrivial.count())
+	// the verdict of run.sh's -race pass: a detector report becomes a violation in mc/report; if the pass's own
+	// stream oracles fired first (exit 1) their findings are taken over here
+	if rp := os.Getenv("VERIF_RACE_PASS"); strings.HasPrefix(rp, "failed:1:") {
+		out, _ := os.ReadFile(strings.TrimPrefix(rp, "failed:1:"))
+		for _, l := range strings.Split(string(out), "\n") {
+			if strings.HasPrefix(l, "RACEPASS-FINDING ") {
+				l = strings.TrimPrefix(l, "RACEPASS-FINDING ")
+				if i := strings.Index(l, ": "); i > 0 {
+					r.Violation(l[:i], "free-running pass under the race detector: "+l[i+2:], map[string]interface{}{"kind": "race-pass"})
+				}
+			}
+		}
+	}
 	if n := atomic.LoadInt64(&irreproducible); n > 0 {
 		r.Set("irreproducible_findings_not_reported", n)
 		fmt.Fprintf(os.Stderr, "c20: note: %d finding(s) did not reproduce in 5 re-executions and are not reported as violations; first: %v\n", n, firstIrreproducible.Load())
@@ -688,6 +722,101 @@ func replayIlv(sp ilvSpec) (fs []finding) {
 	return append(hf, fs...)
 }
 
+// replayFlushStop re-executes one recorded FlushStop schedule.
+func replayFlushStop(sp fsSpec) (fs []finding) {
+	ex := &explore.Explorer{Bound: 1 << 20, NoPrune: true}
+	ex.Body = func(c *explore.Ctx) { fs, _ = runFlushStop(sp, c) }
+	ex.OnPanic = func(_ *explore.Ctx, p interface{}) {
+		fs = []finding{{sig("mconn:flushstop-while-send-routine-busy", "replay-diverged"), fmt.Sprint(p)}}
+	}
+	ex.RunOne(sp.Choices)
+	return fs
+}
+
+// phaseFlushStop: FlushStop against a busy send routine, explored (flushstop.go). One P, as phaseInterleave.
+func phaseFlushStop() {
+	t0 := time.Now()
+	old := runtime.GOMAXPROCS(1)
+	defer runtime.GOMAXPROCS(old)
+	// quick: every script, messages of 300 and maxPayload+1 bytes (1 and 2 packets) in every combination, on one
+	// channel and alternating between two, plus a first message of 66000 bytes (buffer overflow inside a batch);
+	// all schedules with <= 2 preemptions. thorough: sizes {1, 300, maxPayload+1}, <= 5 preemptions.
+	bound := 2
+	specs := fsScenarios([]int{300, maxPayload() + 1}, true)
+	if r.Thorough() {
+		bound = 5
+		specs = fsScenarios([]int{1, 300, maxPayload() + 1}, true)
+	}
+	var violating int64
+	done := poolN(1, int64(len(specs)), nil, func(_ interface{}, i int64) interface{} {
+		sp := specs[i]
+		sp.Bound = bound
+		outcomes := map[string]bool{}
+		ex := &explore.Explorer{Bound: bound, Workers: 1, NoPrune: true, Deadline: deadlineAt}
+		ex.OnPanic = func(_ *explore.Ctx, p interface{}) {
+			fmt.Printf("MACHINERY-ERROR property=C20 controlled FlushStop exploration %v %s: %v\n", sp.Msgs, sp.Script, p)
+			os.Exit(3)
+		}
+		ex.Body = func(c *explore.Ctx) {
+			if atomic.LoadInt64(&violating) > ilvMaxViolating {
+				return
+			}
+			fs, obs := runFlushStop(sp, c)
+			tick()
+			run := obs.run
+			r.Add("evaluations", 1)
+			r.Add("fs_executions", 1)
+			r.Add("fs_choice_points", int64(obs.points))
+			r.Add("fs_goroutine_state_snapshots", int64(run.polls))
+			r.Max("fs_max_preemptions_in_one_execution", int64(run.preemptions))
+			if run.startedWhileSendRoutineParked {
+				r.Add("fs_executions_flushstop_called_while_send_routine_parked_at_a_gate", 1)
+			}
+			r.Add("fs_send_routine_parked_before_a_flush", int64(run.parks[fsR][fsAtFlush]))
+			r.Add("fs_send_routine_parked_inside_conn_write", int64(run.parks[fsR][fsInConnWrite]))
+			r.Add("fs_flushstop_parked_before_its_flush", int64(run.parks[fsF][fsAtFlush]))
+			r.Add("fs_flushstop_parked_inside_conn_write", int64(run.parks[fsF][fsInConnWrite]))
+			r.Add("fs_quiescent_points_with_a_goroutine_waiting_in_the_code_under_test", int64(run.blockedSeen))
+			if run.bothParked {
+				r.Add("fs_executions_with_both_goroutines_parked_at_once", 1)
+			}
+			for i, a := range obs.accepted {
+				if a {
+					r.Add("fs_messages_accepted", 1)
+				} else {
+					r.Add("fs_messages_refused_by_trysend", 1)
+				}
+				_ = i
+			}
+			c.Outcome = obs.wire + "|" + obs.got
+			outcomes[obs.wire] = true
+			r.Distinct("fs_distinct_wire_orders", obs.wire)
+			nontrivial.add(fmt.Sprint("fs|", sp.Msgs, sp.Script, "|", obs.wire, "|", obs.got))
+			if len(fs) > 0 {
+				sc := sp
+				sc.Choices = c.Choices()
+				reportFindings(caseSpec{Phase: "flushstop", FlushStop: &sc}, fs)
+				if atomic.AddInt64(&violating, 1) == ilvMaxViolating+1 {
+					r.NotExhaustive(fmt.Sprintf("controlled FlushStop exploration stopped after %d violating executions", ilvMaxViolating))
+				}
+			}
+		}
+		st := ex.Explore()
+		r.Add("fs_scenarios", 1)
+		if len(outcomes) > 1 {
+			r.Add("fs_scenarios_with_more_than_one_wire_order", 1)
+		}
+		if !st.Completed {
+			r.NotExhaustive(fmt.Sprintf("controlled FlushStop exploration of %s stopped at the deadline", sp.Script))
+		}
+		if i == 7 || i == int64(len(specs))-1 {
+			r.Sample(map[string]interface{}{"phase": "flushstop", "case": sp, "executions": st.Executions, "distinct_wire_orders": len(outcomes)})
+		}
+		return nil
+	}, nil)
+	finishPhase("flushstop-vs-send-routine", done, int64(len(specs)), t0)
+}
+
 var ilvViolating int64
 
 const ilvMaxViolating = 300
@@ -853,11 +982,25 @@ func racePassMain() {
 	t0 := time.Now()
 	done := runFreePhase(iters)
 	finishPhase("free-running-writers", done, int64(iters), t0)
+	t0 = time.Now()
+	fsIters := iters / 2
+	done = pool(int64(fsIters), nil, func(_ interface{}, i int64) interface{} {
+		fs, got := runFlushStopFree(int(i))
+		tick()
+		r.Add("evaluations", 1)
+		r.Add("flushstop_free_running_iterations", 1)
+		nontrivial.add("fsfree|" + fmt.Sprint(i%64) + "|" + got)
+		if len(fs) > 0 {
+			reportFindings(caseSpec{Phase: "flushstop-free", Free: &freeSpec{Iter: int(i)}}, fs)
+		}
+		return nil
+	}, nil)
+	finishPhase("flushstop-free-running", done, int64(fsIters), t0)
 	r.Set("race_detector_compiled_in", raceEnabled)
 	if !raceEnabled {
 		fmt.Fprintln(os.Stderr, "c20: note: C20_RACE_PASS=1 without VERIF_RACE=1: the race detector is not compiled in, only stream integrity is checked")
 	}
-	r.Set("rule", fmt.Sprintf("race pass: %d free-running iterations on real SecretConnection pairs, per iteration and direction two real writer goroutines issuing 7 tagged Write calls each (sizes from %v) and one reader goroutine with varying buffer sizes; oracle: the bytes read are a concatenation of whole intact Write payloads, every writer's payloads in its own order, all delivered, no error; the race detector (exit 66) judges the rest. distinct_nontrivial = distinct observed payload orders", iters, freeSizes))
+	r.Set("rule", fmt.Sprintf("race pass: %d free-running iterations on real SecretConnection pairs, per iteration and direction two real writer goroutines issuing 7 tagged Write calls each (sizes from %v) and one reader goroutine with varying buffer sizes; oracle: the bytes read are a concatenation of whole intact Write payloads, every writer's payloads in its own order, all delivered, no error; the race detector (exit 66) judges the rest; plus %d free-running iterations of FlushStop() against a send routine stalled inside conn.Write of a throttled flush with two more accepted messages queued (message sizes varied), the link opened after a number of yields; oracle: the wire decodes to exactly the accepted messages, once, intact, in per-channel order; the detector judges the accesses to the shared buffered writer and send state. distinct_nontrivial = distinct observed payload orders / delivered streams", iters, freeSizes, iters/2))
 	r.Set("distinct_nontrivial", nontrivial.count())
 	r.Assume("the process is built with -race (VERIF_RACE=1); see race_detector_compiled_in")
 	r.Exhaustive(true)
